@@ -49,7 +49,33 @@ def wrapper_rules(F, rep):
         rep.fn_seen(ctor)
         ci = mir.inlined(F, ctor, depth=2)
         nset = 0
-        for bi, si, st in ci.stmts():
+        # first by evaluation: the struct the constructor returns for symbolic parameters (sees through `..Self::base()` updates)
+        evaluated = None
+        try:
+            import absint
+            v = absint.Eval(F, {}).fn_eval(ctor, [("sym", "p%d" % i) for i in range(1, ctor.nargs + 1)])
+            if isinstance(v, tuple) and v[0] == "struct": evaluated = v[2]
+        except Exception:
+            evaluated = None
+        if evaluated is not None and all(k in evaluated for k in ("separator", "lowercase", "keep_zeros", "max_length")):
+            want_sym = {"lowercase": "p2", "keep_zeros": "p3", "max_length": "p4"}
+            for nm in ("separator", "lowercase", "keep_zeros", "max_length"):
+                nset += 1
+                x = evaluated[nm]
+                txt = x[1] if isinstance(x, tuple) and x[0] == "sym" else repr(x)
+                if nm == "separator":
+                    import re as _re
+                    good = isinstance(x, tuple) and x[0] == "sym" and (txt == "p1" or txt.startswith("map(p1, "))
+                    # the mapped function only converts &str to String
+                    for cpath in _re.findall(r"'(crate::[^']+)'", txt):
+                        c_ = F.fn(cpath)
+                        if c_ is None or any(not any((mir.callee(t) or "").endswith(y) for y in ("::to_string", "::to_owned", "::into", "String::from", "From<&str>>::from", "::clone")) for b_, t in c_.calls()): good = False
+                else: good = isinstance(x, tuple) and x[0] == "sym" and txt == want_sym[nm]
+                if good: rep.ok(rule, "Sanitizer::str stores %s as given" % nm, sample=ctor.where(), nontrivial_key="ctor" + nm)
+                elif any(a.strip("::") in txt for a in ALTERING): rep.bad(rule, "ctor-alters:" + nm, "Sanitizer::str passes %s through `%s` before storing it: some settings (e.g. max_length = 0) are replaced by others" % (nm, txt[:80]), ctor.where())
+                else: rep.bad(rule, "ctor-wiring:" + nm, "Sanitizer::str stores `%s` in %s, expected its own parameter" % (txt[:80], nm), ctor.where())
+            ci = None
+        for bi, si, st in (ci.stmts() if ci is not None else []):
             if not (st[0] == "=" and st[2][0] == "agg" and (st[2][1].get("adt") or "").endswith("sanitize::Sanitizer")): continue
             for nm, op in zip(st[2][1]["fields"], st[2][2]):
                 if nm not in ("separator", "lowercase", "keep_zeros", "max_length"): continue
